@@ -25,15 +25,20 @@ FX = GT + "FixedHeapSizeTrigger"
 
 
 def clamped(t):
+    """The OUTERMOST operation producing the value is the clamp (anything applied after the clamp -- an addition, a cast to a
+    wider value, a second definition on another path -- could leave [min, max])."""
     t = strip(t)
-    for s in walk(t):
-        if s and s[0] == "call" and isinstance(s[1], str) and last_seg(s[1]) == "clamp":
-            lo, hi = show(strip(s[3][1])), show(strip(s[3][2]))
-            if lo.endswith(".min_heap_pages") and hi.endswith(".max_heap_pages"):
-                return True
-    txt = show(t)
-    if re.search(r"min\(.*max\(.*\.min_heap_pages\).*\.max_heap_pages\)", txt) or re.search(r"max\(.*min\(.*\.max_heap_pages\).*\.min_heap_pages\)", txt):
-        return True
+    if not t or t[0] != "call" or not isinstance(t[1], str):
+        return False
+    nm = last_seg(t[2] or t[1])
+    a = [strip(x) for x in t[3]]
+    if nm == "clamp" and len(a) == 3:
+        return show(a[1]).endswith(".min_heap_pages") and show(a[2]).endswith(".max_heap_pages") and re.match(r"^arg1\.", show(a[1])) is not None
+    # x.max(lo).min(hi)  /  x.min(hi).max(lo): sound when lo <= hi
+    if nm == "min" and len(a) == 2 and show(a[1]) == "arg1.max_heap_pages" and a[0] and a[0][0] == "call" and last_seg(a[0][2] or a[0][1]) == "max":
+        return show(strip(a[0][3][1])) == "arg1.min_heap_pages"
+    if nm == "max" and len(a) == 2 and show(a[1]) == "arg1.min_heap_pages" and a[0] and a[0][0] == "call" and last_seg(a[0][2] or a[0][1]) == "min":
+        return show(strip(a[0][3][1])) == "arg1.max_heap_pages"
     return False
 
 
@@ -83,3 +88,34 @@ def run(ctx, F):
         a0, a1 = show(strip(cs.fn.flow.arg_tree(cs, 0))), show(strip(cs.fn.flow.arg_tree(cs, 1)))
         ctx.judge("min" in a0.lower() or ".0" in a0 or "bytes_to_pages" in a0, "C38.writers", "MemBalancerTrigger::new(min, max) call in %s" % short(cs.fn.q), expected="first argument derives from the option's minimum", found="(%s, %s)" % (a0[:60], a1[:60]),
                   where=where(cs.fn, cs.line), key="C38.writers|new-args|" + cs.fn.q)
+
+    # ---- C38.units: what the option gives in bytes reaches the triggers in pages, min as min and max as max
+    gn = F.fn(GT + "GCTrigger::new")
+    nfx = 0
+    for i, b in enumerate(gn.blocks):
+        if i not in gn.cfg.live:
+            continue
+        for j, st in enumerate(b["s"]):
+            if st[0] == "=" and st[2][0] == "agg" and st[2][1].get("adt") == FX:
+                nfx += 1
+                v = show(strip(gn.flow.operand_tree(st[2][2][0], i, j)))
+                gs = [show(p.tree) + "==" + str(p.val) for p in guards(gn, i)]
+                dyn = any("== DynamicHeapSize" in x.replace("==", " == ") or "==DynamicHeapSize" in x for x in gs)
+                want = "conversions::bytes_to_pages_up(arg1.gc_trigger as DynamicHeapSize.1)" if dyn else "conversions::bytes_to_pages_up(arg1.gc_trigger as FixedHeapSize.0)"
+                ctx.judge(v == want, "C38.units", "FixedHeapSizeTrigger built in GCTrigger::new gets the configured size in pages (%s arm)" % ("DynamicHeapSize/NoGC" if dyn else "FixedHeapSize"),
+                          expected="total_pages = " + want, found=v[:160], where=where(gn, st[-1]), key="C38.units|fixed|" + ("dyn" if dyn else "fixed"))
+    ctx.floor("C38.units", nfx, 2, "FixedHeapSizeTrigger constructions in GCTrigger::new")
+    mbn = live_calls(gn, q=MB + "::new")
+    ctx.judge(len(mbn) == 1, "C38.units", "GCTrigger::new builds one MemBalancerTrigger", expected="1", found=str(len(mbn)), where=where(gn), key="C38.units|mb-site")
+    for c in mbn:
+        a0, a1 = show(strip(gn.flow.arg_tree(c, 0))), show(strip(gn.flow.arg_tree(c, 1)))
+        ctx.judge(a0 == "conversions::bytes_to_pages_up(arg1.gc_trigger as DynamicHeapSize.0)" and a1 == "conversions::bytes_to_pages_up(arg1.gc_trigger as DynamicHeapSize.1)",
+                  "C38.units", "MemBalancerTrigger::new receives (min, max) of the option converted to pages", expected="(pages_up(min_bytes), pages_up(max_bytes))", found="(%s, %s)" % (a0[:90], a1[:90]),
+                  where=where(gn, c.line), key="C38.units|mb-args")
+    mn = F.fn(MB + "::new")
+    names = [mn.local_name(i) for i in range(1, mn.argc + 1)]
+    ctx.judge(names[:2] == ["min_heap_pages", "max_heap_pages"], "C38.units", "MemBalancerTrigger::new takes (min_heap_pages, max_heap_pages)", expected="parameter order (min, max)", found=str(names),
+              where=where(mn), key="C38.units|mb-params")
+    for cs in callers(F, MB + "::new"):
+        ctx.judge(cs.fn.q == gn.q, "C38.units", "MemBalancerTrigger::new <- %s" % short(cs.fn.q), expected="constructed only by GCTrigger::new", found=cs.fn.q, where=where(cs.fn, cs.line),
+                  key="C38.units|mb-caller|" + cs.fn.q)
